@@ -82,6 +82,7 @@ type FnCtx struct {
 	freshWrite bool
 	cellOnly  map[string][]*ssa.FreeVar
 	ghosts    map[string]Val
+	havocNext map[string]Term // allocation frontier at the point a havoc constant was introduced
 }
 
 func freeVarNamed(fn *ssa.Function, name string) *ssa.FreeVar {
@@ -428,7 +429,7 @@ func (fx *FnCtx) callWrites(c *ssa.CallCommon, locals map[*ssa.Alloc]bool, comps
 	for _, m := range fc.Modifies {
 		if callee != nil {
 			if fv := freeVarNamed(callee, m); fv != nil {
-				comps["P$"+typeKey(deref(fv.Type()))] = true
+				comps[ptrComp(deref(fv.Type()))] = true
 				continue
 			}
 		}
@@ -461,7 +462,7 @@ func (P *Prog) modComps(pkg *types.Package, m string) ([]string, error) {
 		if _, ok := t.Underlying().(*types.Struct); ok {
 			return leafComps(t), nil
 		}
-		return []string{"P$" + typeKey(t)}, nil
+		return []string{ptrComp(t)}, nil
 	case strings.HasPrefix(m, "G."):
 		return []string{"G$" + pkg.Name() + "." + m[2:]}, nil
 	case strings.HasPrefix(m, "map."):
@@ -561,7 +562,7 @@ func newFnCtx(P *Prog, fn *ssa.Function, fc *FuncContract) *FnCtx {
 	fx := &FnCtx{P: P, fn: fn, fc: fc, key: fn.Pkg.Pkg.Name() + "." + fnKey(fn), declared: map[string]string{}, vals: map[ssa.Value]Term{},
 		tuples: map[ssa.Value][]Term{}, reach: map[*ssa.BasicBlock]Term{}, outSt: map[*ssa.BasicBlock]*State{}, edgeCond: map[[2]int]Term{},
 		compSort: map[string]string{}, written: map[string]bool{}, counter: map[string]int{}, closures: map[ssa.Value]*ssa.MakeClosure{},
-		allocByPos: map[token.Pos]*ssa.Alloc{}, notes: map[string]bool{}, paramTerm: map[string]Val{}, callCount: map[string]int{}, callees: map[string]bool{}, cellOnly: map[string][]*ssa.FreeVar{}, ghosts: map[string]Val{}}
+		allocByPos: map[token.Pos]*ssa.Alloc{}, notes: map[string]bool{}, paramTerm: map[string]Val{}, callCount: map[string]int{}, callees: map[string]bool{}, cellOnly: map[string][]*ssa.FreeVar{}, ghosts: map[string]Val{}, havocNext: map[string]Term{}}
 	fx.mode = "int"
 	if fc.Mode != "" {
 		fx.mode = fc.Mode
@@ -586,7 +587,7 @@ func (fx *FnCtx) generate() {
 	for _, m := range fx.fc.Modifies {
 		if fv := freeVarNamed(fn, m); fv != nil {
 			// cell-level: only the captured variable itself may be written through this component
-			c := "P$" + typeKey(deref(fv.Type()))
+			c := ptrComp(deref(fv.Type()))
 			if _, isStruct := deref(fv.Type()).Underlying().(*types.Struct); isStruct {
 				fx.errf("contract of %s: captured struct variable %s in modifies is not supported", fx.key, m)
 				continue
@@ -1038,10 +1039,12 @@ func (fx *FnCtx) enterLoop(li *loopInfo, st *State, preds []*ssa.BasicBlock) *St
 		fx.fresh++
 		hs.base = fmt.Sprintf("H%s_%d", tag, fx.fresh)
 		hs.heap = map[string]Term{}
+		fx.havocNext[hs.base] = hs.next
 	} else {
 		for _, c := range sortedKeys(comps) {
 			fx.fresh++
 			hs.heap[c] = Term{fmt.Sprintf("H%s_%s_%d", tag, sanitize(c), fx.fresh), ""}
+			fx.havocNext[hs.heap[c].S] = hs.next
 			if s, ok := fx.compSort[c]; ok {
 				_ = hs.getHeap(P, c, s)
 			}
